@@ -12,7 +12,7 @@
 #![allow(dead_code, unused_imports)]
 use super::*;
 use crate::ast::BinaryOperator::{self, *};
-use crate::token::{Term, TokenValue, Tokens, Value};
+use crate::token::{Term, TokenError, TokenValue, Tokens, Value};
 use std::ops::Range;
 
 type R = Result<Value, Error<(), ()>>;
@@ -126,6 +126,148 @@ fn c03t_token_no_panic_len3() {
         }
     }
 }
+
+// ---------------------------------------------------------------- tokenizer on concrete texts
+// The tokenizer with a symbolic text is out of CBMC's reach (see above).  On a CONCRETE text CBMC only has to follow
+// one path, which makes a bounded stand-in possible: the real `Tokens::next_token` is run over each text of a fixed
+// list (ASCII and non-ASCII letters and digits, every operator length, blanks of several widths, invalid characters)
+// and compared, token by token, with a reference written over characters, not bytes: leading white space is skipped;
+// the longest operator of the C grammar is one token; otherwise a maximal run of alphanumeric characters and `_` is a
+// term (a constant if it starts with an ASCII digit, a variable name otherwise); anything else is an invalid character.
+// Every location must lie on character boundaries (no panic on slicing).  Labelled bounded (the listed texts).
+const REF_OPS3: [&str; 2] = ["<<=", ">>="];
+const REF_OPS2: [&str; 19] = ["|=", "||", "^=", "&=", "&&", "==", "!=", "<=", "<<", ">=", ">>", "+=", "++", "-=", "--", "*=", "/=", "%=", "::"];
+const REF_OPS1: &str = "?:|^&=<>+-*/%~!()";
+
+fn ref_op_len(s: &str) -> usize {
+    let b = s.as_bytes();
+    let mut k = 0;
+    while k < REF_OPS3.len() {
+        let o = REF_OPS3[k].as_bytes();
+        if b.len() >= 3 && b[0] == o[0] && b[1] == o[1] && b[2] == o[2] {
+            return 3;
+        }
+        k += 1;
+    }
+    let mut k = 0;
+    while k < REF_OPS2.len() - 1 {
+        let o = REF_OPS2[k].as_bytes();
+        if b.len() >= 2 && b[0] == o[0] && b[1] == o[1] {
+            return 2;
+        }
+        k += 1;
+    }
+    if !b.is_empty() {
+        let mut k = 0;
+        let o = REF_OPS1.as_bytes();
+        while k < o.len() {
+            if b[0] == o[k] {
+                return 1;
+            }
+            k += 1;
+        }
+    }
+    0
+}
+
+fn check_tokens(src: &str) {
+    let mut tokens = Tokens::new(src);
+    let mut pos = 0usize;
+    let mut rounds = 0;
+    while rounds < 6 {
+        rounds += 1;
+        // reference: skip white space, character by character
+        let mut start = pos;
+        for c in src[pos..].chars() {
+            if c.is_whitespace() {
+                start += c.len_utf8();
+            } else {
+                break;
+            }
+        }
+        let rest = &src[start..];
+        let got = tokens.next_token();
+        if rest.is_empty() {
+            match got {
+                Ok(t) => assert!(t.value == TokenValue::EndOfInput && t.location == (start..start), "end of input after trailing white space"),
+                Err(_) => assert!(false, "end of input is not an error"),
+            }
+            return;
+        }
+        let oplen = ref_op_len(rest);
+        if oplen > 0 {
+            match got {
+                Ok(t) => {
+                    assert!(matches!(t.value, TokenValue::Operator(_)), "an operator character starts an operator token");
+                    assert!(t.location == (start..start + oplen), "the longest operator is one token");
+                }
+                Err(_) => assert!(false, "an operator is not an error"),
+            }
+            pos = start + oplen;
+            continue;
+        }
+        let mut end = start;
+        for c in rest.chars() {
+            if c.is_alphanumeric() || c == '_' {
+                end += c.len_utf8();
+            } else {
+                break;
+            }
+        }
+        if end == start {
+            match got {
+                Ok(_) => assert!(false, "a character that starts no token is an error"),
+                Err(e) => assert!(e.cause == TokenError::InvalidCharacter && e.location.start == start, "invalid character reported where it stands"),
+            }
+            return;
+        }
+        let first_is_digit = rest.as_bytes()[0].is_ascii_digit();
+        match got {
+            Ok(t) => {
+                assert!(t.location == (start..end), "a term is the maximal run of alphanumeric characters and _ (counted in bytes of whole characters)");
+                match t.value {
+                    TokenValue::Term(Term::Variable { name, .. }) => assert!(!first_is_digit && name.len() == end - start, "a term that does not start with a digit is a variable name"),
+                    TokenValue::Term(Term::Value(_)) => assert!(first_is_digit, "a constant starts with a digit"),
+                    _ => assert!(false, "a term token"),
+                }
+            }
+            Err(e) => {
+                assert!(first_is_digit && e.cause == TokenError::InvalidNumericConstant && e.location == (start..end), "only a malformed constant is an error, reported over the whole term");
+                return;
+            }
+        }
+        pos = end;
+    }
+}
+
+macro_rules! tok_case {
+    ($name:ident, $text:expr) => {
+        tok_case!($name, $text, 40);
+    };
+    ($name:ident, $text:expr, $unwind:expr) => {
+        #[kani::proof]
+        #[kani::unwind($unwind)]
+        fn $name() {
+            check_tokens($text);
+        }
+    };
+}
+tok_case!(c03q_tok_empty, "");
+tok_case!(c03q_tok_blank, " \t");
+tok_case!(c03q_tok_ascii_term, " ab1 ");
+tok_case!(c03q_tok_non_ascii_name, "\u{e9}");
+tok_case!(c03q_tok_cjk_name, "\u{5909}\u{6570}+1");
+tok_case!(c03q_tok_digit_then_non_ascii, "1\u{663}", 100);
+tok_case!(c03q_tok_mixed, "x+\u{e9}_9");
+tok_case!(c03q_tok_shift_assign, "a<<=b");
+tok_case!(c03q_tok_shift, "a>>b");
+tok_case!(c03q_tok_plus3, "+++");
+tok_case!(c03q_tok_cond, "a?b:c");
+tok_case!(c03q_tok_fullwidth_digit, "\u{ff10}1");
+tok_case!(c03q_tok_wide_blank, "\u{3000}a\u{a0}");
+tok_case!(c03q_tok_invalid, "a $");
+tok_case!(c03q_tok_invalid_after_non_ascii, "\u{e9}#");
+tok_case!(c03q_tok_hex, "0x1F 08");
 
 // ---------------------------------------------------------------- constants in variables
 /// One-variable environment.
